@@ -1,7 +1,9 @@
-(* C15 - proofs about Rrc/C15Newest.v: with the repaired verdict a record judged newest is above
-   (epoch, then sequence number) every record admitted before it, a path challenge is produced only
-   for such a record, and the verdict of the unrepaired code (the replay window's own answer) does
-   not have that property (F71: late record numbered 0; F72: record of a superseded epoch). *)
+(* C15 - proofs about Rrc/C15Newest.v: with the verdict of the code now (RSeen) a record is judged
+   newest IF AND ONLY IF it is above (epoch, then sequence number) every record admitted before it,
+   and a path challenge is produced only for such a record.  The earlier verdicts fail: RWindow (the
+   replay window's own answer) is unsafe (F71: late record numbered 0; F72: record of a superseded
+   epoch); RAuth (epoch = authorised epoch) is safe but not complete (peer's KeyUpdate processed,
+   our ACK lost: nothing the peer can still send is newest). *)
 From DtlsV Require Import Lib.Bytes Rec.Window Rrc.C15Manager Rrc.C15Conn Rrc.C15Newest.
 Open Scope N_scope.
 
@@ -9,11 +11,13 @@ Open Scope N_scope.
 
 Lemma accept_latest m w x :
   latest (fst (accept m w x)) = (if latest w <? x then x else latest w) /\
-  (snd (accept m w x) = true -> latest w < x \/ x = 0).
+  (snd (accept m w x) = true <-> latest w < x \/ x = 0).
 Proof.
   unfold accept. destruct (latest w <? x) eqn:E; cbn [fst snd latest].
-  - split; [reflexivity|]. intros _. left. apply N.ltb_lt. exact E.
-  - split; [reflexivity|]. intro H. right. apply N.eqb_eq. exact H.
+  - split; [reflexivity|]. split; [|reflexivity]. intros _. left. apply N.ltb_lt. exact E.
+  - split; [reflexivity|]. apply N.ltb_ge in E. split.
+    + intro H. right. apply N.eqb_eq. exact H.
+    + intros [H|H]; [lia|]. apply N.eqb_eq. exact H.
 Qed.
 
 (* ---------------------------------------------------------------- invariant *)
@@ -22,22 +26,31 @@ Qed.
 Definition NInv (st : nstate) (A : list (N * N)) : Prop :=
   (forall ep s, In (ep, s) A -> s <= latest (win_of ep (n_wins st))) /\
   (forall ep s, In (ep, s) A -> ep <= n_remote st) /\
-  (forall ep, seen ep st = true <-> exists s, In (ep, s) A).
+  (forall ep, seen ep st = true <-> exists s, In (ep, s) A) /\
+  (forall ep, 0 < latest (win_of ep (n_wins st)) -> In (ep, latest (win_of ep (n_wins st))) A) /\
+  (forall ep, In ep (n_seen st) <-> exists s, In (ep, s) A).
 
 Lemma ninv_init r : NInv (ninit r) [].
 Proof.
   unfold NInv, ninit, seen; cbn [n_wins n_remote n_seen existsb In].
   split; [intros ep s []|]. split; [intros ep s []|].
-  intro ep. split; [discriminate | intros [s []]].
+  split; [intro ep; split; [discriminate | intros [s []]]|].
+  split; [intros ep H; cbn [win_of win_init latest] in H; lia|].
+  intro ep. split; [intros [] | intros [s []]].
 Qed.
 
 Lemma ninv_perm st A B : (forall p, In p A <-> In p B) -> NInv st A -> NInv st B.
 Proof.
-  intros HP (J1 & J2 & J3). repeat split.
-  - intros ep s H. apply J1. now apply HP.
-  - intros ep s H. apply J2 with s. now apply HP.
-  - intro H. destruct (proj1 (J3 ep) H) as [s Hs]. exists s. now apply HP.
-  - intros [s Hs]. apply J3. exists s. now apply HP.
+  intros HP (J1 & J2 & J3 & J4 & J5).
+  split; [intros ep s H; apply J1; now apply HP|].
+  split; [intros ep s H; apply J2 with s; now apply HP|].
+  split; [intro ep; split;
+          [intro H; destruct (proj1 (J3 ep) H) as [s Hs]; exists s; now apply HP
+          | intros [s Hs]; apply J3; exists s; now apply HP]|].
+  split; [intros ep H; apply HP; now apply J4|].
+  intro ep; split;
+    [intro H; destruct (proj1 (J5 ep) H) as [s Hs]; exists s; now apply HP
+    | intros [s Hs]; apply J5; exists s; now apply HP].
 Qed.
 
 Lemma nadmit_epoch st ep seq : nadmit st ep seq = true -> ep <= n_remote st.
@@ -64,12 +77,12 @@ Qed.
 Lemma naccept_inv fixed st A ep seq :
   NInv st A -> nadmit st ep seq = true -> NInv (fst (naccept fixed st ep seq)) ((ep, seq) :: A).
 Proof.
-  intros (J1 & J2 & J3) Had. rewrite naccept_state.
+  intros (J1 & J2 & J3 & J4 & J5) Had. rewrite naccept_state.
   pose proof (accept_latest NMAXSEQ (win_of ep (n_wins st)) seq) as [HL _].
   set (w' := fst (accept NMAXSEQ (win_of ep (n_wins st)) seq)) in *.
   assert (Hge : latest (win_of ep (n_wins st)) <= latest w' /\ seq <= latest w').
   { rewrite HL. destruct (N.ltb_spec (latest (win_of ep (n_wins st))) seq); lia. }
-  repeat split; cbn [n_wins n_remote n_seen].
+  split; [|split; [|split; [|split]]]; cbn [n_wins n_remote n_seen].
   - intros ep' s H. unfold win_set. cbn [win_of].
     destruct (N.eqb_spec ep ep') as [He|He].
     + subst ep'. destruct H as [H|H].
@@ -79,39 +92,92 @@ Proof.
   - intros ep' s [H|H].
     + inversion H; subst. eapply nadmit_epoch; eassumption.
     + now apply J2 with s.
-  - unfold seen. cbn [n_seen existsb]. intro H. apply orb_prop in H. destruct H as [H|H].
-    + apply N.eqb_eq in H. subst. exists seq. now left.
-    + destruct (proj1 (J3 ep0) H) as [s Hs]. exists s. now right.
-  - intros [s [H|H]]; unfold seen; cbn [n_seen existsb].
-    + inversion H; subst. now rewrite N.eqb_refl.
-    + apply orb_true_intro. right. apply J3. now exists s.
+  - intro ep0. unfold seen. cbn [n_seen existsb]. split.
+    + intro H. apply orb_prop in H. destruct H as [H|H].
+      * apply N.eqb_eq in H. subst. exists seq. now left.
+      * destruct (proj1 (J3 ep0) H) as [s Hs]. exists s. now right.
+    + intros [s [H|H]].
+      * inversion H; subst. now rewrite N.eqb_refl.
+      * apply orb_true_intro. right. apply J3. now exists s.
+  - intros ep' Hp. unfold win_set in *. cbn [win_of] in *.
+    destruct (N.eqb_spec ep ep') as [He|He].
+    + subst ep'. rewrite HL in *.
+      destruct (N.ltb_spec (latest (win_of ep (n_wins st))) seq); [now left|].
+      right. now apply J4.
+    + right. now apply J4.
+  - intro ep0. cbn [In]. split.
+    + intros [H|H]; [subst; exists seq; now left|].
+      destruct (proj1 (J5 ep0) H) as [s Hs]. exists s. now right.
+    + intros [s [H|H]]; [inversion H; now left|]. right. apply J5. now exists s.
 Qed.
 
 Lemma nremote_inv e st A : NInv st A -> NInv (nremote e st) A.
 Proof.
-  intros HI. pose proof HI as (J1 & J2 & J3). unfold nremote.
+  intros HI. pose proof HI as (J1 & J2 & J3 & J4 & J5). unfold nremote.
   destruct (N.ltb_spec (n_remote st) e); [|exact HI].
-  split; [exact J1|]. split; [|exact J3].
+  split; [exact J1|]. split; [|split; [exact J3|split; [exact J4|exact J5]]].
   cbn [n_remote]. intros ep s H'. apply J2 in H'. lia.
 Qed.
 
-(* THE VERDICT OF THE REPAIRED CODE: an admitted record judged newest is above every record
-   admitted before it *)
-Lemma naccept_newest st A ep seq :
-  NInv st A -> nadmit st ep seq = true -> snd (naccept true st ep seq) = true ->
+Lemma seen_higher_false ep st A :
+  NInv st A -> (seen_higher ep st = false <-> forall ep' s', In (ep', s') A -> ep' <= ep).
+Proof.
+  intros (_ & _ & _ & _ & J5). unfold seen_higher. split.
+  - intros H ep' s' Hin. destruct (N.leb_spec ep' ep) as [Hle|Hlt]; [exact Hle|]. exfalso.
+    assert (He : existsb (fun e => ep <? e) (n_seen st) = true).
+    { apply existsb_exists. exists ep'. split; [apply J5; now exists s' | now apply N.ltb_lt]. }
+    congruence.
+  - intro H. destruct (existsb (fun e => ep <? e) (n_seen st)) eqn:E; [|reflexivity]. exfalso.
+    apply existsb_exists in E. destruct E as [e [He Hlt]]. apply N.ltb_lt in Hlt.
+    destruct (proj1 (J5 e) He) as [s' Hs]. apply H in Hs. lia.
+Qed.
+
+(* SOUNDNESS (RAuth and RSeen): an admitted record judged newest is above every record admitted
+   before it *)
+Lemma naccept_newest r st A ep seq :
+  r <> RWindow ->
+  NInv st A -> nadmit st ep seq = true -> snd (naccept r st ep seq) = true ->
   forall p, In p A -> lex_lt p (ep, seq).
 Proof.
-  intros (J1 & J2 & J3) Had Hv [ep' s'] Hin. rewrite naccept_verdict in Hv.
-  unfold newest_verdict in Hv.
+  intros Hr HI Had Hv [ep' s'] Hin. pose proof HI as (J1 & J2 & J3 & J4 & J5).
+  rewrite naccept_verdict in Hv.
   pose proof (accept_latest NMAXSEQ (win_of ep (n_wins st)) seq) as [_ HL].
-  destruct ((seq =? 0) && seen ep st) eqn:E0; [discriminate|].
-  apply andb_prop in Hv. destruct Hv as [Hl Hr]. apply N.eqb_eq in Hr.
-  specialize (HL Hl). unfold lex_lt; cbn [fst snd].
-  pose proof (J2 _ _ Hin) as Hle. destruct (N.eq_dec ep' ep) as [He|He]; [|left; lia].
-  subst ep'. right. split; [reflexivity|].
-  assert (Hs : seen ep st = true) by (apply J3; now exists s').
-  rewrite Hs, andb_true_r in E0. apply N.eqb_neq in E0.
-  destruct HL as [HL|HL]; [|contradiction]. apply J1 in Hin. lia.
+  assert (Hcore : (seq =? 0) && seen ep st = false ->
+                  snd (accept NMAXSEQ (win_of ep (n_wins st)) seq) = true ->
+                  ep' <= ep -> lex_lt (ep', s') (ep, seq)).
+  { intros E0 Hl Hle. apply HL in Hl. unfold lex_lt; cbn [fst snd].
+    destruct (N.eq_dec ep' ep) as [He|He]; [|left; lia].
+    subst ep'. right. split; [reflexivity|].
+    assert (Hs : seen ep st = true) by (apply J3; now exists s').
+    rewrite Hs, andb_true_r in E0. apply N.eqb_neq in E0.
+    destruct Hl as [Hl|Hl]; [|contradiction]. apply J1 in Hin. lia. }
+  destruct r; [congruence| |]; cbn [newest_verdict] in Hv;
+    destruct ((seq =? 0) && seen ep st) eqn:E0; try discriminate;
+    apply andb_prop in Hv; destruct Hv as [Hl Hr2]; apply Hcore; try assumption; try reflexivity.
+  - apply N.eqb_eq in Hr2. pose proof (J2 _ _ Hin). lia.
+  - apply negb_true_iff in Hr2. eapply (proj1 (seen_higher_false ep st A HI)); eassumption.
+Qed.
+
+(* COMPLETENESS (RSeen only): an admitted record above every record admitted before it is judged
+   newest *)
+Lemma naccept_complete st A ep seq :
+  NInv st A -> nadmit st ep seq = true ->
+  (forall p, In p A -> lex_lt p (ep, seq)) -> snd (naccept RSeen st ep seq) = true.
+Proof.
+  intros HI Had Hab. pose proof HI as (J1 & J2 & J3 & J4 & J5).
+  rewrite naccept_verdict. cbn [newest_verdict].
+  pose proof (accept_latest NMAXSEQ (win_of ep (n_wins st)) seq) as [_ HL].
+  assert (E0 : (seq =? 0) && seen ep st = false).
+  { destruct (N.eqb_spec seq 0) as [Hz|Hz]; [|reflexivity]. cbn [andb].
+    destruct (seen ep st) eqn:Es; [|reflexivity]. exfalso.
+    destruct (proj1 (J3 ep) Es) as [s' Hs]. apply Hab in Hs. unfold lex_lt in Hs; cbn [fst snd] in Hs. lia. }
+  rewrite E0. apply andb_true_intro. split.
+  - apply HL. destruct (N.eq_dec (latest (win_of ep (n_wins st))) 0) as [Hz|Hz].
+    + destruct (N.eq_dec seq 0); [now right | left; lia].
+    + left. assert (Hp : 0 < latest (win_of ep (n_wins st))) by lia.
+      apply J4 in Hp. apply Hab in Hp. unfold lex_lt in Hp; cbn [fst snd] in Hp. lia.
+  - apply negb_true_iff. apply (proj2 (seen_higher_false ep st A HI)).
+    intros ep' s' Hin. apply Hab in Hin. unfold lex_lt in Hin; cbn [fst snd] in Hin. lia.
 Qed.
 
 (* ---------------------------------------------------------------- runs of the record stream *)
@@ -120,67 +186,95 @@ Fixpoint all_newest_ok (A : list (N * N)) (acc : list (N * N * bool)) : Prop :=
   match acc with
   | [] => True
   | (ep, seq, v) :: acc' =>
-      (v = true -> forall p, In p A -> lex_lt p (ep, seq)) /\ all_newest_ok ((ep, seq) :: A) acc'
+      (v = true <-> forall p, In p A -> lex_lt p (ep, seq)) /\ all_newest_ok ((ep, seq) :: A) acc'
   end.
 
-Lemma nrun_all_newest evs : forall st A, NInv st A -> all_newest_ok A (snd (nrun true st evs)).
+Lemma nrun_all_newest evs : forall st A, NInv st A -> all_newest_ok A (snd (nrun RSeen st evs)).
 Proof.
   induction evs as [|ev evs IH]; intros st A HI; cbn [nrun]; [exact I|].
   destruct ev as [ep seq|e]; cbn [nstep].
   - destruct (nadmit st ep seq) eqn:Had.
-    + pose proof (naccept_inv true st A ep seq HI Had) as HI'.
-      pose proof (naccept_newest st A ep seq HI Had) as HN.
-      destruct (naccept true st ep seq) as [st' v]. cbn [fst snd] in *.
-      specialize (IH st' _ HI'). destruct (nrun true st' evs) as [st2 acc]. cbn [snd] in *.
-      split; [intro Hv; subst v; now apply HN | exact IH].
-    + specialize (IH st A HI). destruct (nrun true st evs) as [st2 acc]. exact IH.
-  - specialize (IH _ A (nremote_inv e st A HI)). destruct (nrun true (nremote e st) evs) as [st2 acc].
+    + pose proof (naccept_inv RSeen st A ep seq HI Had) as HI'.
+      pose proof (naccept_newest RSeen st A ep seq ltac:(discriminate) HI Had) as HN.
+      pose proof (naccept_complete st A ep seq HI Had) as HC.
+      destruct (naccept RSeen st ep seq) as [st' v]. cbn [fst snd] in *.
+      specialize (IH st' _ HI'). destruct (nrun RSeen st' evs) as [st2 acc]. cbn [snd] in *.
+      split; [|exact IH]. split; [intro Hv; subst v; now apply HN | exact HC].
+    + specialize (IH st A HI). destruct (nrun RSeen st evs) as [st2 acc]. exact IH.
+  - specialize (IH _ A (nremote_inv e st A HI)). destruct (nrun RSeen (nremote e st) evs) as [st2 acc].
     exact IH.
 Qed.
 
-Lemma all_newest_split acc : forall A pre ep seq post,
-  all_newest_ok A acc -> acc = pre ++ (ep, seq, true) :: post ->
-  (forall p, In p A -> lex_lt p (ep, seq)) /\
-  (forall ep' seq' b, In (ep', seq', b) pre -> lex_lt (ep', seq') (ep, seq)).
+Lemma all_newest_split acc : forall A pre ep seq v post,
+  all_newest_ok A acc -> acc = pre ++ (ep, seq, v) :: post ->
+  (v = true <->
+   (forall p, In p A -> lex_lt p (ep, seq)) /\
+   (forall ep' seq' b, In (ep', seq', b) pre -> lex_lt (ep', seq') (ep, seq))).
 Proof.
-  induction acc as [|[[e s] v] acc IH]; intros A pre ep seq post H Heq.
+  induction acc as [|[[e s] v0] acc IH]; intros A pre ep seq v post H Heq.
   - destruct pre; discriminate.
   - cbn [all_newest_ok] in H. destruct H as [Hh Ht]. destruct pre as [|x pre].
-    + cbn [app] in Heq. inversion Heq; subst. split; [now apply Hh | intros ? ? ? []].
+    + cbn [app] in Heq. inversion Heq; subst. rewrite Hh. split.
+      * intro HA. split; [exact HA | intros ? ? ? []].
+      * intros [HA _]. exact HA.
     + cbn [app] in Heq. inversion Heq; subst.
-      destruct (IH _ pre ep seq post Ht eq_refl) as [HA HP]. split.
-      * intros p Hp. apply HA. now right.
-      * intros ep' seq' b [Hx|Hx].
-        -- inversion Hx; subst. apply HA. now left.
-        -- now apply HP with b.
+      rewrite (IH _ pre ep seq v post Ht eq_refl). split.
+      * intros [HA HP]. split.
+        -- intros p Hp. apply HA. now right.
+        -- intros ep' seq' b [Hx|Hx]; [inversion Hx; subst; apply HA; now left | now apply HP with b].
+      * intros [HA HP]. split.
+        -- intros p [Hp|Hp]; [subst p; apply HP with v0; now left | now apply HA].
+        -- intros ep' seq' b Hx. apply HP with b. now right.
+Qed.
+
+(* THE VERDICT OF THE CODE NOW: over any stream of authentic protected records and remote-epoch
+   changes, an admitted record is judged newest if and only if it is above every record admitted
+   before it *)
+Theorem newest_iff r0 evs pre ep seq v post :
+  snd (nrun RSeen (ninit r0) evs) = pre ++ (ep, seq, v) :: post ->
+  (v = true <-> forall ep' seq' b, In (ep', seq', b) pre -> lex_lt (ep', seq') (ep, seq)).
+Proof.
+  intro H. pose proof (nrun_all_newest evs (ninit r0) [] (ninv_init r0)) as Hall.
+  rewrite (all_newest_split _ [] pre ep seq v post Hall H). split.
+  - intros [_ HP]. exact HP.
+  - intro HP. split; [intros p [] | exact HP].
 Qed.
 
 Theorem newest_is_newest r0 evs pre ep seq post :
-  snd (nrun true (ninit r0) evs) = pre ++ (ep, seq, true) :: post ->
+  snd (nrun RSeen (ninit r0) evs) = pre ++ (ep, seq, true) :: post ->
   forall ep' seq' b, In (ep', seq', b) pre -> lex_lt (ep', seq') (ep, seq).
-Proof.
-  intro H. pose proof (nrun_all_newest evs (ninit r0) [] (ninv_init r0)) as Hall.
-  exact (proj2 (all_newest_split _ [] pre ep seq post Hall H)).
-Qed.
+Proof. intro H. now apply (newest_iff r0 evs pre ep seq true post H). Qed.
 
-(* ---------------------------------------------------------------- the unrepaired verdict *)
+(* ---------------------------------------------------------------- the earlier verdicts *)
 
-(* F71: the first record of epoch 3 arrives after records 1 and 2 of that epoch and is judged
-   newest; the repaired verdict says no *)
+(* F71 (RWindow): the first record of epoch 3 arrives after records 1 and 2 of that epoch and is
+   judged newest; the later verdicts say no *)
 Theorem window_verdict_refuted_late_zero :
   let evs := [NRecord 3 1; NRecord 3 2; NRecord 3 0] in
-  snd (nrun false (ninit 3) evs) = [(3, 1, true); (3, 2, true); (3, 0, true)] /\
-  snd (nrun true (ninit 3) evs) = [(3, 1, true); (3, 2, true); (3, 0, false)].
+  snd (nrun RWindow (ninit 3) evs) = [(3, 1, true); (3, 2, true); (3, 0, true)] /\
+  snd (nrun RSeen (ninit 3) evs) = [(3, 1, true); (3, 2, true); (3, 0, false)].
 Proof. vm_compute. split; reflexivity. Qed.
 
-(* F72: after the remote epoch moved to 4 and records of epoch 4 were admitted, a record of epoch 3
-   that is above everything admitted in epoch 3 is judged newest; the repaired verdict says no *)
+(* F72 (RWindow): after records of epoch 4 were admitted, a record of epoch 3 that is above
+   everything admitted in epoch 3 is judged newest; the later verdicts say no *)
 Theorem window_verdict_refuted_old_epoch :
   let evs := [NRecord 3 0; NRecord 3 1; NRemote 4; NRecord 4 0; NRecord 4 1; NRecord 3 5] in
-  snd (nrun false (ninit 3) evs) =
+  snd (nrun RWindow (ninit 3) evs) =
     [(3, 0, true); (3, 1, true); (4, 0, true); (4, 1, true); (3, 5, true)] /\
-  snd (nrun true (ninit 3) evs) =
+  snd (nrun RSeen (ninit 3) evs) =
     [(3, 0, true); (3, 1, true); (4, 0, true); (4, 1, true); (3, 5, false)].
+Proof. vm_compute. split; reflexivity. Qed.
+
+(* RAuth (0538fb0, replaced by 696da78): the peer's KeyUpdate (3, 1) is processed and raises the
+   authorised epoch to 4; our ACK is lost, so the peer stays in epoch 3; its next record (3, 2) is
+   above everything admitted, yet RAuth does not judge it newest - no path challenge can ever
+   start from it.  RSeen does. *)
+Theorem auth_epoch_verdict_refuted_ack_lost :
+  let evs := [NRecord 3 0; NRecord 3 1; NRemote 4; NRecord 3 2; NRecord 3 3] in
+  snd (nrun RAuth (ninit 3) evs) =
+    [(3, 0, true); (3, 1, true); (3, 2, false); (3, 3, false)] /\
+  snd (nrun RSeen (ninit 3) evs) =
+    [(3, 0, true); (3, 1, true); (3, 2, true); (3, 3, true)].
 Proof. vm_compute. split; reflexivity. Qed.
 
 (* ---------------------------------------------------------------- challenges *)
@@ -286,20 +380,52 @@ Qed.
    produces a path challenge is the arrival of a record that is above (epoch, then sequence
    number) every protected record admitted before it. *)
 Theorem challenge_only_for_newest local r0 c0 evs a o :
-  let '(st, acc) := erun true local (mkES (ninit r0) c0) evs in
-  In o (snd (fst (estep true local st (EArrive a)))) -> o_type o = TChallenge ->
+  let '(st, acc) := erun RSeen local (mkES (ninit r0) c0) evs in
+  In o (snd (fst (estep RSeen local st (EArrive a)))) -> o_type o = TChallenge ->
   forall p, In p acc -> lex_lt p (a_ep a, a_seq a).
 Proof.
-  destruct (erun_inv true local evs (mkES (ninit r0) c0) [] (ninv_init r0)) as [B [HB HP]].
-  destruct (erun true local (mkES (ninit r0) c0) evs) as [st acc]. cbn [fst snd] in *.
+  destruct (erun_inv RSeen local evs (mkES (ninit r0) c0) [] (ninv_init r0)) as [B [HB HP]].
+  destruct (erun RSeen local (mkES (ninit r0) c0) evs) as [st acc]. cbn [fst snd] in *.
   intros Hin Ht p Hp. cbn [estep] in Hin.
   destruct (nadmit (e_n st) (a_ep a) (a_seq a)) eqn:Had; cbn [andb] in Hin; [|destruct Hin].
   destruct (record_admitted local (a_rc a)); [|destruct Hin].
-  pose proof (naccept_newest (e_n st) B _ _ HB Had) as HN.
-  destruct (naccept true (e_n st) (a_ep a) (a_seq a)) as [n' v]. cbn [snd] in HN.
+  pose proof (naccept_newest RSeen (e_n st) B _ _ ltac:(discriminate) HB Had) as HN.
+  destruct (naccept RSeen (e_n st) (a_ep a) (a_seq a)) as [n' v]. cbn [snd] in HN.
   destruct (cstep (e_c st) (ERecord (with_latest (a_recv a) v))) as [c' outs] eqn:Ec.
   cbn [fst snd] in Hin. cbn [cstep] in Ec.
   assert (Hs : In o (snd (step_record (e_c st) (with_latest (a_recv a) v)))) by (rewrite Ec; exact Hin).
   apply step_record_challenge in Hs; [|exact Ht]. destruct Hs as [Hl _].
   cbn [with_latest r_latest] in Hl. apply HN; [exact Hl|]. apply HP. now right.
 Qed.
+
+(* LIVENESS SIDE: an admitted arrival that is above every protected record admitted before reaches
+   the connection-level step with [latest = true] (so Rrc/C15Conn.v decides about the challenge as
+   for a newest record: negotiated, connection ID, non-active source, no pending challenge, budget) *)
+Theorem newest_arrival_is_latest local r0 c0 evs a :
+  let '(st, acc) := erun RSeen local (mkES (ninit r0) c0) evs in
+  nadmit (e_n st) (a_ep a) (a_seq a) = true -> record_admitted local (a_rc a) = true ->
+  (forall p, In p acc -> lex_lt p (a_ep a, a_seq a)) ->
+  snd (fst (estep RSeen local st (EArrive a))) =
+  snd (cstep (e_c st) (ERecord (with_latest (a_recv a) true))).
+Proof.
+  destruct (erun_inv RSeen local evs (mkES (ninit r0) c0) [] (ninv_init r0)) as [B [HB HP]].
+  destruct (erun RSeen local (mkES (ninit r0) c0) evs) as [st acc]. cbn [fst snd] in *.
+  intros Had Hrc Hab. cbn [estep]. rewrite Had, Hrc. cbn [andb].
+  assert (HC : snd (naccept RSeen (e_n st) (a_ep a) (a_seq a)) = true).
+  { apply naccept_complete with B; [exact HB | exact Had|].
+    intros p Hp. apply HP in Hp. destruct Hp as [[]|Hp]. now apply Hab. }
+  destruct (naccept RSeen (e_n st) (a_ep a) (a_seq a)) as [n' v]. cbn [snd] in HC. subst v.
+  destruct (cstep (e_c st) (ERecord (with_latest (a_recv a) true))) as [c' outs]. reflexivity.
+Qed.
+
+(* the scenario of 696da78 in the composed model: KeyUpdate (3, 1) processed (authorised epoch 4),
+   our ACK lost, the peer's next record (3, 2) arrives from address 2 with a connection ID: the code
+   now challenges address 2, RAuth sent nothing *)
+Example ack_lost_then_rebinding :
+  let rc := Some [9] in
+  let rec from seq k now := EArrive (mkArr 3 seq rc (mkRecv from true false 40 k 777 39 WOk now)) in
+  let evs := [rec 1 0 KApp 1000; rec 1 1 KHandshake 2000; EEpoch 4] in
+  let go r := snd (fst (estep r [9] (fst (erun r [9] (mkES (ninit 3) (mkC 1 true [])) evs))
+                              (rec 2 2 KApp 3000))) in
+  map o_dest (go RSeen) = [2] /\ map o_type (go RSeen) = [TChallenge] /\ go RAuth = [].
+Proof. vm_compute. repeat split; reflexivity. Qed.
